@@ -155,7 +155,7 @@ func (e *Explorer) Reach(start *ssa.BasicBlock, target func(ssa.Instruction) boo
 								continue
 							}
 						}
-						work = append(work, exState{s, phiFacts(st.b, s, nf)})
+						work = append(work, exState{s, e.phiFacts(st.b, s, nf)})
 						continue
 					}
 				}
@@ -187,7 +187,7 @@ func (e *Explorer) Reach(start *ssa.BasicBlock, target func(ssa.Instruction) boo
 					}
 				}
 			}
-			work = append(work, exState{s, phiFacts(st.b, s, nf)})
+			work = append(work, exState{s, e.phiFacts(st.b, s, nf)})
 		}
 	}
 	return nil
@@ -196,7 +196,7 @@ func (e *Explorer) Reach(start *ssa.BasicBlock, target func(ssa.Instruction) boo
 // phiFacts resolves boolean phis of succ along the edge pred->succ: a constant
 // incoming value fixes the phi, an incoming value with a known fact is copied,
 // anything else clears a stale fact.
-func phiFacts(pred, succ *ssa.BasicBlock, facts map[string]bool) map[string]bool {
+func (e *Explorer) phiFacts(pred, succ *ssa.BasicBlock, facts map[string]bool) map[string]bool {
 	idx := -1
 	for i, p := range succ.Preds {
 		if p == pred {
@@ -225,13 +225,26 @@ func phiFacts(pred, succ *ssa.BasicBlock, facts map[string]bool) map[string]bool
 		if !ok {
 			break
 		}
-		e := phi.Edges[idx]
-		ev, neg := condAtom(e)
+		ed := phi.Edges[idx]
+		ev, neg := condAtom(ed)
 		if c, ok := ev.(*ssa.Const); ok {
 			if c.Value != nil && c.Value.Kind() == constant.Bool {
 				set(phi.Name(), constant.BoolVal(c.Value) != neg, false)
 			}
 			continue
+		}
+		// an incoming value that is an assumed external atom (x := a && atom)
+		if e.Atom != nil {
+			if name, ti, ok := e.Atom(ev); ok {
+				if tv, has := e.Assume[name]; has {
+					val := tv
+					if ti != 0 {
+						val = !tv
+					}
+					set(phi.Name(), val != neg, false)
+					continue
+				}
+			}
 		}
 		if v, has := facts[ev.Name()]; has {
 			set(phi.Name(), v != neg, false)
